@@ -7,6 +7,7 @@ import (
 	"sort"
 	"strconv"
 	"strings"
+	"sync"
 	"time"
 )
 
@@ -136,8 +137,11 @@ func NewUnits(baseUnit *UnitDefinition, multipliers map[int64]*UnitDefinition) *
 }
 
 type UnitsDefinition struct {
-	BaseUnitValue          *UnitDefinition           `json:"base_unit"`
-	MultipliersValue       map[int64]*UnitDefinition `json:"multipliers"`
+	BaseUnitValue    *UnitDefinition           `json:"base_unit"`
+	MultipliersValue map[int64]*UnitDefinition `json:"multipliers"`
+	// cacheMutex guards the lazily computed fields below. A units definition - in particular the predefined,
+	// package-level ones - is shared by every schema that uses it, and schemas are used concurrently.
+	cacheMutex             sync.Mutex
 	sortedMultipliersCache []int64
 	reCache                *regexp.Regexp
 	reSubExpNames          map[string]int
@@ -216,6 +220,13 @@ func (u *UnitsDefinition) FormatLongFloat(data float64) string {
 }
 
 func (u *UnitsDefinition) getSortedMultipliersCache() []int64 {
+	u.cacheMutex.Lock()
+	defer u.cacheMutex.Unlock()
+	return u.getSortedMultipliersCacheLocked()
+}
+
+// getSortedMultipliersCacheLocked must be called with cacheMutex held.
+func (u *UnitsDefinition) getSortedMultipliersCacheLocked() []int64 {
 	if u.sortedMultipliersCache == nil {
 		var multipliers []int64
 		for multiplier := range u.MultipliersValue {
@@ -236,10 +247,8 @@ func (u *UnitsDefinition) parse(data string) (any, error) {
 			Message: "Empty string cannot be parsed as " + u.BaseUnitValue.NameLongPlural(),
 		}
 	}
-	if u.reCache == nil {
-		u.updateReCache()
-	}
-	match := u.reCache.FindStringSubmatch(data)
+	reCache, reSubExpNames := u.getReCache()
+	match := reCache.FindStringSubmatch(data)
 	if match == nil {
 		return u.buildUnitParseError(data)
 	}
@@ -249,7 +258,7 @@ func (u *UnitsDefinition) parse(data string) (any, error) {
 	var intNumber int64
 	var err error
 	for _, multiplier := range u.getSortedMultipliersCache() {
-		matchGroupID := u.reSubExpNames[fmt.Sprintf("g%d", multiplier)]
+		matchGroupID := reSubExpNames[fmt.Sprintf("g%d", multiplier)]
 		result := match[matchGroupID]
 
 		intNumber, floatNumber, isFloat, err = u.handleParseMultiplier(
@@ -263,7 +272,7 @@ func (u *UnitsDefinition) parse(data string) (any, error) {
 			return 0, err
 		}
 	}
-	baseMatchGroup := match[u.reSubExpNames["g1"]]
+	baseMatchGroup := match[reSubExpNames["g1"]]
 	intNumber, floatNumber, isFloat, err = u.handleParseMultiplier(
 		baseMatchGroup,
 		1,
@@ -314,10 +323,21 @@ func (u *UnitsDefinition) handleParseMultiplier(
 	return intNumber, floatNumber, isFloat, nil
 }
 
+// getReCache returns the parser's regular expression and its group index, building them on first use.
+func (u *UnitsDefinition) getReCache() (*regexp.Regexp, map[string]int) {
+	u.cacheMutex.Lock()
+	defer u.cacheMutex.Unlock()
+	if u.reCache == nil {
+		u.updateReCache()
+	}
+	return u.reCache, u.reSubExpNames
+}
+
+// updateReCache must be called with cacheMutex held.
 func (u *UnitsDefinition) updateReCache() {
 	var parts []string
 	if u.MultipliersValue != nil {
-		for _, multiplier := range u.getSortedMultipliersCache() {
+		for _, multiplier := range u.getSortedMultipliersCacheLocked() {
 			unit := u.MultipliersValue[multiplier]
 			parts = append(parts, fmt.Sprintf(
 				"(?:|(?P<g%s>[0-9]+)\\s*(%s|%s|%s|%s))",
@@ -337,11 +357,13 @@ func (u *UnitsDefinition) updateReCache() {
 		regexp.QuoteMeta(u.BaseUnitValue.NameLongPlural()),
 	))
 	regex := "^\\s*" + strings.Join(parts, "\\s*") + "\\s*$"
-	u.reCache = regexp.MustCompile(regex)
-	u.reSubExpNames = map[string]int{}
-	for i, subExpName := range u.reCache.SubexpNames() {
-		u.reSubExpNames[subExpName] = i
+	reCache := regexp.MustCompile(regex)
+	reSubExpNames := map[string]int{}
+	for i, subExpName := range reCache.SubexpNames() {
+		reSubExpNames[subExpName] = i
 	}
+	u.reSubExpNames = reSubExpNames
+	u.reCache = reCache
 }
 
 func (u *UnitsDefinition) buildUnitParseError(data string) (any, error) {
